@@ -152,6 +152,12 @@ mptr in_head; struct obj* addn_last; _Bool addn_cas_ok_seen, addn_cas_last_ok; m
 #define XV_HAVOC_ACQ havoc_acq(self) /* writes self->ptr, the counts reached through O_ref_count(*GDEREF(q)), and all ghost state */
 
 #include "lowered.h"
+#ifdef XV_SOLO
+/* SOLO termination runs: the harnesses below call the texts that keep their original retry loops */
+#define lfrc_decrement_refcnt lfrc_decrement_refcnt_solo
+#define lfrc_g_acquire lfrc_g_acquire_solo
+#define lfrc_fl_add_nodes lfrc_fl_add_nodes_solo
+#endif
 
 /* ================= monitors, stubs ================= */
 static void mon_load(void* a, uint64_t v, int o) {
